@@ -134,7 +134,7 @@ func TestCheck(t *testing.T) {
 		runCase(r, rp.Idx, hits)
 		return
 	}
-	n := r.Pick(60000, 1500000)
+	n := r.Pick(60000, 6000000)
 	for i := 0; i < n; i++ {
 		if r.Mine(i) {
 			runCase(r, i, hits)
